@@ -42,8 +42,9 @@ func runC06(c *Ctx) {
 		{"C06.K1", "encoder.DecodeString:term", dec, "b64dec($0)"},
 	}
 	for _, t := range terms {
-		got := normalize(c.SuccessTerm(t.f, 0, nil)).String()
-		c.Check(t.rule, t.key, got == t.want, t.f.Pos(), fmt.Sprintf("success term = %s (expected %s)", got, t.want))
+		gt := normalize(c.SuccessTerm(t.f, 0, nil))
+		got := gt.String()
+		c.Check(t.rule, t.key, termIs(gt, t.want), t.f.Pos(), fmt.Sprintf("success term = %s (expected %s)", got, t.want))
 	}
 	// decode errors are propagated (success only across both decode steps)
 	b64D := c.MethodIn("encoding/base64", "Encoding", "DecodeString")
@@ -64,18 +65,68 @@ func runC06(c *Ctx) {
 
 	// ---- U1 IsComputedUsingMultihashAlgorithms
 	c.CheckGuard("C06.U1", "IsComputedUsing:decode-ok", icu, nil, callTo("GetMultihashCode(encoded)", gmc, pathIs("$0")))
-	c.CheckGuard("C06.U1", "IsComputedUsing:code-equality", icu, nil, &GCheck{Name: "decoded code == uint64(one of the supplied codes)", NoDescend: true, MatchCmp: func(c *Ctx, b *ssa.BinOp, env Env) (bool, bool) {
-		if b.Op != token.EQL && b.Op != token.NEQ {
+	// the same test written as slices.ContainsFunc(codes, func(c) bool { return code == uint64(c) }): the function's
+	// true result is that call's result
+	eqSearch := false
+	for _, r := range returnsOf(icu) {
+		if cl, ok := r.Results[0].(*ssa.Call); ok {
+			if fn, other := equalityClosureSearch(cl); fn != nil && c.Path(cl.Call.Args[0], nil) == "$1" {
+				// the compared value: a captured variable (by value, or by reference: a cell written once)
+				var fv *ssa.FreeVar
+				byRef := false
+				switch y := other.(type) {
+				case *ssa.FreeVar:
+					fv = y
+				case *ssa.UnOp:
+					if y.Op == token.MUL {
+						fv, _ = y.X.(*ssa.FreeVar)
+						byRef = true
+					}
+				}
+				if mc, isMC := cl.Call.Args[1].(*ssa.MakeClosure); isMC && fv != nil {
+					for k, b := range mc.Bindings {
+						if fn.FreeVars[k] != fv {
+							continue
+						}
+						const want = "hashing.GetMultihashCode($0)#0"
+						if !byRef && c.Path(b, nil) == want {
+							eqSearch = true
+						}
+						if al, isAl := b.(*ssa.Alloc); isAl && byRef {
+							n, good := 0, 0
+							for _, rf := range *al.Referrers() {
+								if st, isS := rf.(*ssa.Store); isS && st.Addr == ssa.Value(al) {
+									n++
+									if c.Path(st.Val, nil) == want {
+										good++
+									}
+								}
+							}
+							if n > 0 && n == good {
+								eqSearch = true
+							}
+						}
+					}
+				}
+			}
+		}
+	}
+	if eqSearch {
+		c.Check("C06.U1", "IsComputedUsing:code-equality", true, icu.Pos(), "the result is slices.ContainsFunc(codes, c => decoded code == uint64(c))")
+	} else {
+		c.CheckGuard("C06.U1", "IsComputedUsing:code-equality", icu, nil, &GCheck{Name: "decoded code == uint64(one of the supplied codes)", NoDescend: true, MatchCmp: func(c *Ctx, b *ssa.BinOp, env Env) (bool, bool) {
+			if b.Op != token.EQL && b.Op != token.NEQ {
+				return false, false
+			}
+			l, r := c.Path(b.X, env), c.Path(b.Y, env)
+			isCode := func(s string) bool { return s == "hashing.GetMultihashCode($0)#0" }
+			isElem := func(s string) bool { return strings.HasPrefix(s, "conv<uint64>($1[") }
+			if (isCode(l) && isElem(r)) || (isCode(r) && isElem(l)) {
+				return true, b.Op == token.EQL
+			}
 			return false, false
-		}
-		l, r := c.Path(b.X, env), c.Path(b.Y, env)
-		isCode := func(s string) bool { return s == "hashing.GetMultihashCode($0)#0" }
-		isElem := func(s string) bool { return strings.HasPrefix(s, "conv<uint64>($1[") }
-		if (isCode(l) && isElem(r)) || (isCode(r) && isElem(l)) {
-			return true, b.Op == token.EQL
-		}
-		return false, false
-	}})
+		}})
+	}
 	c.Min("C06.U1", 2)
 
 	c.hashLeafContracts("C04.K1")
@@ -150,9 +201,10 @@ func runC03(c *Ctx) {
 	c.Min("C03.P1", 2+6+4)
 
 	// ---- P2
-	t := normalize(c.SuccessTerm(gus, 0, nil)).String()
+	tt := normalize(c.SuccessTerm(gus, 0, nil))
+	t := tt.String()
 	wantT := "b64(mhEnc(H(index($1,0),JCS($0)),index($1,0)))"
-	c.Check("C03.P2", "GetUniqueSuffix:term", t == wantT, gus.Pos(), "suffix(suffixData, algs) = "+t+" (expected "+wantT+")")
+	c.Check("C03.P2", "GetUniqueSuffix:term", termIs(tt, wantT), gus.Pos(), "suffix(suffixData, algs) = "+t+" (expected "+wantT+")")
 	c.CheckGuard("C03.P2", "GetUniqueSuffix:non-empty-algorithms", gus, nil, cmpReject("len(algs) == 0 rejected", token.EQL, pathIs("len($1)"), pathIs("0")))
 	c.Min("C03.P2", 2)
 
@@ -211,8 +263,41 @@ func (c *Ctx) checkParseDispatch(rule string) {
 		c.Unresolved(rule, "ParseOperation")
 		return
 	}
-	tbl := c.caseTable(po, nil, func(p string) bool { return strings.HasSuffix(p, ".Operation") })
 	pf := c.parseFuncs()
+	// the dispatcher written with a package-level table type -> parser instead of a switch
+	if dv := c.dispatch(po, func(p string) bool { return strings.HasSuffix(p, ".Operation") }); dv.table {
+		ok := len(dv.arms) == 4
+		for _, t := range opTypes {
+			a := dv.arms[`"`+t+`"`]
+			found := false
+			if a != nil {
+				for _, ac := range c.armCalls(dv, a) {
+					if ac.callee == pf[t] && pf[t] != nil && len(ac.args) == 2 && ac.args[0] == "$2" && ac.args[1] == "$3" {
+						found = true
+						// a literal wrapper must hand the parser's results straight back
+						if ac.call != nil {
+							for _, r := range returnsOf(a.fn) {
+								for _, rv := range r.Results {
+									if ex, isEx := rv.(*ssa.Extract); !isEx || ex.Tuple != ssa.Value(ac.call) {
+										found = false
+									}
+								}
+							}
+						}
+					}
+				}
+			}
+			if !found {
+				ok = false
+			}
+		}
+		c.Check(rule, "ParseOperation:dispatch", ok, po.Pos(), "type constant -> Parse<Type>Operation(operationBuffer, batch) for exactly the four types (table form)")
+		foundOnly, callReq := c.tableGuards(dv)
+		c.Check(rule, "ParseOperation:parse-error-propagated", callReq, po.Pos(), "ParseOperation succeeds only when the selected per-type parser returned a nil error")
+		c.Check(rule, "ParseOperation:unknown-type-rejected", foundOnly, po.Pos(), "an operation type outside the table is an error")
+		return
+	}
+	tbl := c.caseTable(po, nil, func(p string) bool { return strings.HasSuffix(p, ".Operation") })
 	ok := len(tbl) == 4
 	var errVals []ssa.Value
 	for _, t := range opTypes {
@@ -326,6 +411,7 @@ func (c *Ctx) isValidModelMultihashContract(rule string) {
 		return call.Call.StaticCallee() == cmm && recomputed(c.Path(call, env)+"#0")
 	}})
 	c.CheckGuard(rule, "IsValidModelMultihash:compare-and-reject", ivm, nil, cmpReject("computed != supplied rejected", token.NEQ, recomputed, pathIs("$1")))
-	t := normalize(c.SuccessTerm(cmm, 0, nil)).String()
-	c.Check(rule, "CalculateModelMultihash:term", t == "b64(mhEnc(H($1,JCS($0)),$1))", cmm.Pos(), "CalculateModelMultihash(v,a) = "+t)
+	tt := normalize(c.SuccessTerm(cmm, 0, nil))
+	t := tt.String()
+	c.Check(rule, "CalculateModelMultihash:term", termIs(tt, "b64(mhEnc(H($1,JCS($0)),$1))"), cmm.Pos(), "CalculateModelMultihash(v,a) = "+t)
 }
